@@ -12,11 +12,16 @@ INVS = ['SizeIsExact', 'RespectsOrder', 'NonDominatedFirst', 'NothingToDoIsNoOp'
 
 
 def configs(thorough):
-  out = [('plain', dict(G=2, NMax=4, Targets={1, 2, 3}, Viols={0}, Ages={0}, Limits={99})),
-         ('safety_eviction', dict(G=1, NMax=3, Targets={1, 2}, Viols={0, 1}, Ages={0, 1}, Limits={1, 99}))]
+  free = dict(NSafe=0, NUnsafe=0)
+  out = [('plain', dict(free, G=2, NMax=4, Targets={1, 2, 3}, Viols={0}, Ages={0}, Limits={99})),
+         ('safety_eviction', dict(free, G=1, NMax=3, Targets={1, 2}, Viols={0, 1}, Ages={0, 1}, Limits={1, 99})),
+         # a cut inside the class of unsafe genes, below safe genes that dominate some of them: the dominated-count must be
+         # taken inside the class (seeded change C11 round 4: ranks computed before the safety step)
+         ('two_safe_three_unsafe', dict(G=2, NMax=5, Targets={4}, Viols={0, 1}, Ages={0}, Limits={99}, NSafe=2, NUnsafe=3))]
   if thorough:
-    out.append(('plain_5', dict(G=1, NMax=5, Targets={2, 3, 4}, Viols={0}, Ages={0}, Limits={99})))
-    out.append(('safety_4', dict(G=1, NMax=4, Targets={1, 2, 3}, Viols={0, 1}, Ages={0}, Limits={99})))
+    out.append(('plain_5', dict(free, G=1, NMax=5, Targets={2, 3, 4}, Viols={0}, Ages={0}, Limits={99})))
+    out.append(('safety_4', dict(free, G=1, NMax=4, Targets={1, 2, 3}, Viols={0, 1}, Ages={0}, Limits={99})))
+    out.append(('one_safe_three_unsafe', dict(G=2, NMax=4, Targets={2, 3}, Viols={0, 1}, Ages={0}, Limits={99}, NSafe=1, NUnsafe=3)))
   return out
 
 
@@ -61,7 +66,19 @@ def judge(case, kept, rows_ok, ages_ok, input_untouched):
   return None
 
 
+def _judge_chunk(job):
+  safety, cases = job
+  out = []
+  for c in cases:
+    try:
+      out.append(judge(c, *select(c, safety)))
+    except Exception as e:  # pylint: disable=broad-except
+      out.append('raised:' + type(e).__name__)
+  return out
+
+
 def run(ctx, workdir):
+  from vizier._src.algorithms.evolution import nsga2  # noqa: F401  (import before fork)
   layer = {'configs': [], 'states': 0, 'replayed': 0}
   for name, consts in configs(ctx.thorough):
     cfg = os.path.join(workdir, 'SV_%s.cfg' % name)
@@ -75,11 +92,13 @@ def run(ctx, workdir):
     safety = consts['Viols'] != {0}
     counts = collections.Counter()
     with_choice = sum(1 for c in cases if c['need'] and c['need'] < len(c['border']))
-    for c in cases:
-      try:
-        v = judge(c, *select(c, safety))
-      except Exception as e:  # pylint: disable=broad-except
-        v = 'raised:' + type(e).__name__
+    import concurrent.futures as cf
+    import multiprocessing
+    k = max(1, len(cases) // 64)
+    chunks = [(safety, cases[i:i + k]) for i in range(0, len(cases), k)]
+    with cf.ProcessPoolExecutor(max_workers=16, mp_context=multiprocessing.get_context('fork')) as ex:
+      verdicts = [v for part in ex.map(_judge_chunk, chunks) for v in part]
+    for c, v in zip(cases, verdicts):
       counts[v or 'ok'] += 1
       if v and counts[v] <= 2:
         ctx.violation({'via': 'survival', 'verdict': v, 'safety_metrics': safety, 'eviction': c['limit'] != 99},
